@@ -96,6 +96,21 @@ theorem reject_wraparound_counterexample :
   decide
 
 
+/-- both fee bounds at 2^63 and above (legal `uint64` values that `ValidateNetworkProperties` accepts) are read as
+NEGATIVE `int64` bounds (and so is an execution fee of 2^63); a fee token registered with a negative rate (the registry does not reject one) gives the fee a
+negative value that lies between them -/
+def cfgWrapBounds : Cfg :=
+  { cfg0 with minTxFee := two63 + 1, maxTxFee := two64 - 1, execFees := [⟨"send", two63, 1⟩],
+              tokens := [⟨"ukex", Dec.one, true⟩, ⟨"tka", -Dec.one, true⟩] }
+def txNegValue : Tx := ⟨[⟨"send", .send [("ukex", 5)] 2, 1⟩], [("tka", 807)], 1⟩
+
+/-- **Wrap-around of the fee bounds (accepting direction).** A transaction whose fee has the value -807 is accepted
+although the configured range is [2^63 + 1, 2^64 - 1]: the hypotheses `minTxFee < 2^63`, `maxTxFee < 2^63` of
+`accept_iff_spec` cannot be dropped for the range test either (recorded finding `C09/fee-range/int64-cast-of-bounds`). -/
+theorem accept_wraparound_bounds_counterexample :
+    validateFee cfgWrapBounds txNegValue = .ok () ∧ feeValue cfgWrapBounds txNegValue.fee < 0 ∧
+    ¬ ((cfgWrapBounds.minTxFee : Int) * Dec.P ≤ feeValue cfgWrapBounds txNegValue.fee) := by decide
+
 /-! ## charged exactly; failed work leaves no trace -/
 
 theorem deductFee_spec (tx : Tx) (s s' : State) (h : deductFee tx s = .ok s') :
